@@ -14,6 +14,7 @@ import (
 	"github.com/kardiachain/go-kardia/consensus"
 	"github.com/kardiachain/go-kardia/lib/common"
 	"github.com/kardiachain/go-kardia/mainchain/blockchain"
+	kproto "github.com/kardiachain/go-kardia/proto/kardiachain/types"
 	"github.com/kardiachain/go-kardia/types"
 
 	"verifharness/core"
@@ -35,10 +36,13 @@ type CrashPlan struct {
 	Torn       bool // WAL image = synced prefix + part of the unsynced/next record (torn tail)
 	VotesFirst bool // the victim is sent a round's block parts only after it has seen +2/3 prevotes (so that its
 	// prevote and precommit are queued together)
-	Rotate  int64 // WAL head size limit: the WAL rotates (checked after every stimulus); 0 = no rotation
-	Second  bool  // a second crash during recovery / the following heights: SecondQ durable units after the restart
-	SecondQ int
-	Round2  bool // even heights need two rounds: the round-1 proposal and its parts are not forwarded (nil votes, timeouts
+	Rotate    int64 // WAL head size limit: the WAL rotates (checked after every stimulus); 0 = no rotation
+	Second    bool  // a second crash during recovery / the following heights: SecondQ durable units after the restart
+	SecondQ   int
+	ValChange bool // the application reports a power rise (x5) of validator Victim+1 at height 2 (in force from height 4);
+	// that validator's precommits of heights <= 3 do not reach the victim, so the seen commits the victim stores
+	// lack the signer whose power changes (restarts in the window where last and current validator sets differ)
+	Round2 bool // even heights need two rounds: the round-1 proposal and its parts are not forwarded (nil votes, timeouts
 	// and a second proposer in the WAL at the crash points)
 	Late bool // crash at the LAST instant with durable prefix p: just before unit p+1 is written (everything the
 	// node did since unit p - handled and gossiped messages included - is lost with the unsynced buffers)
@@ -103,9 +107,9 @@ func CrashCase(c *core.Case, plan CrashPlan, p int) {
 	defer os.RemoveAll(root)
 	net, err := NewNet(NetOpts{N: plan.N, Powers: powers, Root: root, Node: func(i int) NodeOpts {
 		if i == plan.Victim {
-			return NodeOpts{RecordDB: true, FileWAL: true, Cache: cacheFor(plan.Flush), WALHeadLimit: plan.Rotate}
+			return NodeOpts{RecordDB: true, FileWAL: true, Cache: cacheFor(plan.Flush), WALHeadLimit: plan.Rotate, Sched: valChangeSched(plan)}
 		}
-		return NodeOpts{Cache: cacheFor(plan.Flush)}
+		return NodeOpts{Cache: cacheFor(plan.Flush), Sched: valChangeSched(plan)}
 	}})
 	if err != nil {
 		run.Inconclusive("crash case: network build failed: " + err.Error())
@@ -134,6 +138,9 @@ func CrashCase(c *core.Case, plan CrashPlan, p int) {
 	}
 	if plan.Round2 {
 		round2Filter(net)
+	}
+	if plan.ValChange {
+		valChangeFilter(net, plan)
 	}
 	startIdx := victim.Dur.Len()
 	if p < startIdx {
@@ -264,6 +271,11 @@ func CrashCase(c *core.Case, plan CrashPlan, p int) {
 		}
 	}
 	victim.Stop(false)
+	if plan.ValChange {
+		// the withheld precommits were only late: from the restart on everything is delivered (a permanent loss would
+		// keep a victim that crashed before its own precommit from ever collecting +2/3 for that height)
+		net.Filter = nil
+	}
 	curDB, curImg, curFiles := db, img, imgFiles
 	var nn *Node
 	var res SyncResult
@@ -322,7 +334,7 @@ func CrashCase(c *core.Case, plan CrashPlan, p int) {
 			}()
 			tr := &Trace{}
 			tr.add(Ev{Kind: EvRestart})
-			n2, err := BuildNode(plan.Victim, net.Gen, net.Keys[plan.Victim], curDB, tr, nil, NodeOpts{FileWAL: true, Dir: dir, Cache: cacheFor(plan.Flush), RecordDB: record, WALHeadLimit: plan.Rotate})
+			n2, err := BuildNode(plan.Victim, net.Gen, net.Keys[plan.Victim], curDB, tr, nil, NodeOpts{FileWAL: true, Dir: dir, Cache: cacheFor(plan.Flush), RecordDB: record, WALHeadLimit: plan.Rotate, Sched: valChangeSched(plan)})
 			if err != nil {
 				return "build: " + err.Error()
 			}
@@ -548,9 +560,9 @@ func GoldenLen(plan CrashPlan) (total int, start int, err error) {
 	}
 	net, err := NewNet(NetOpts{N: plan.N, Powers: powers, Node: func(i int) NodeOpts {
 		if i == plan.Victim {
-			return NodeOpts{RecordDB: true, FileWAL: true, Cache: cacheFor(plan.Flush), WALHeadLimit: plan.Rotate}
+			return NodeOpts{RecordDB: true, FileWAL: true, Cache: cacheFor(plan.Flush), WALHeadLimit: plan.Rotate, Sched: valChangeSched(plan)}
 		}
-		return NodeOpts{Cache: cacheFor(plan.Flush)}
+		return NodeOpts{Cache: cacheFor(plan.Flush), Sched: valChangeSched(plan)}
 	}})
 	if err != nil {
 		return 0, 0, err
@@ -565,6 +577,9 @@ func GoldenLen(plan CrashPlan) (total int, start int, err error) {
 	}
 	if plan.Round2 {
 		round2Filter(net)
+	}
+	if plan.ValChange {
+		valChangeFilter(net, plan)
 	}
 	if plan.Rotate > 0 {
 		gv := net.Nodes[plan.Victim]
@@ -623,6 +638,41 @@ func votesFirstFilter(net *Net, v int) {
 		}
 		_, ok := pv.TwoThirdsMajority()
 		return ok
+	}
+}
+
+// valChangeSched is the schedule of ValChange plans (same on every node).
+func valChangeSched(plan CrashPlan) ValSchedule {
+	if !plan.ValChange {
+		return nil
+	}
+	a := Addr(Key((plan.Victim + 1) % plan.N))
+	return func(h uint64, vals []*types.Validator) []*types.Validator {
+		if len(vals) == 0 || h < 2 {
+			return vals
+		}
+		out := make([]*types.Validator, len(vals))
+		for i, v := range vals {
+			out[i] = v.Copy()
+			if v.Address == a {
+				out[i].VotingPower += 80 * PowerUnit
+			}
+		}
+		return out
+	}
+}
+
+// valChangeFilter keeps the precommits of validator Victim+1 for heights <= 3 from reaching the victim.
+func valChangeFilter(net *Net, plan CrashPlan) {
+	a := Addr(Key((plan.Victim + 1) % plan.N))
+	net.Filter = func(from, to *Node, m consensus.Message) bool {
+		if to.Idx != plan.Victim {
+			return true
+		}
+		if vm, ok := m.(*consensus.VoteMessage); ok && vm.Vote.Type == kproto.PrecommitType && vm.Vote.Height <= 3 && vm.Vote.ValidatorAddress == a {
+			return false
+		}
+		return true
 	}
 }
 
